@@ -25,10 +25,32 @@ const (
 	Compute
 	Release
 	ReleaseAgain
+	GarbleFail   // Garble with a randomness source that fails after Slot*8 bytes (a failing read is a legal fault of an io.Reader)
+	GarbleBadKey // Garble with a key of invalid length
 	numKinds
 )
 
-var kindNames = []string{"Garble", "Eval", "Compute", "Release", "ReleaseAgain"}
+var kindNames = []string{"Garble", "Eval", "Compute", "Release", "ReleaseAgain", "GarbleFailAfter8x", "GarbleBadKey"}
+
+// failingReader delivers n bytes and then fails.
+type failingReader struct{ n int }
+
+var errInjected = fmt.Errorf("injected read error")
+
+func (f *failingReader) Read(p []byte) (int, error) {
+	if f.n <= 0 {
+		return 0, errInjected
+	}
+	k := len(p)
+	if k > f.n {
+		k = f.n
+	}
+	for i := 0; i < k; i++ {
+		p[i] = byte(0x5a + f.n + i)
+	}
+	f.n -= k
+	return k, nil
+}
 
 // Op is one operation of a task; Slot selects one of the task's garblings.
 type Op struct {
@@ -62,8 +84,13 @@ func Draw(t *rt.Tape) *Plan {
 		n := 1 + t.Choose(rt.SGen, 10)
 		var ops []Op
 		for j := 0; j < n; j++ {
-			kind := []int{Garble, Garble, Garble, Eval, Eval, Compute, Release, Release, ReleaseAgain}[t.Choose(rt.SGen, 9)]
-			ops = append(ops, Op{Kind: kind, Slot: t.Choose(rt.SGen, 2)})
+			kind := []int{Garble, Garble, Garble, Eval, Eval, Compute, Release, Release, ReleaseAgain, GarbleFail, GarbleBadKey, Garble}[t.Choose(rt.SGen, 12)]
+			o := Op{Kind: kind, Slot: t.Choose(rt.SGen, 2)}
+			if kind == GarbleFail {
+				// fail after 0, 8, 16, ... bytes: before R, inside R, inside the k-th input label
+				o.Slot = t.Choose(rt.SGen, 2*(2+p.Circ.Inputs.Size()))
+			}
+			ops = append(ops, o)
 		}
 		if t.Choose(rt.SGen, 2) == 0 {
 			ops = append([]Op{{Kind: Garble, Slot: 0}}, ops...) // first use races on the lazy pool creation
@@ -250,6 +277,18 @@ func Exec(p *Plan, circ *circuit.Circuit, task int, rnd io.Reader) *Result {
 				continue
 			}
 			h.g.Release() // releasing twice must be harmless
+		case GarbleFail:
+			key := make([]byte, p.KeyLen[task])
+			g, err := circ.Garble(&failingReader{n: op.Slot * 8}, key)
+			if err == nil {
+				// the source delivered enough: an ordinary garbling, given back at once
+				g.Release()
+			}
+		case GarbleBadKey:
+			if g, err := circ.Garble(rnd, make([]byte, 7)); err == nil {
+				fail("bad-key-accepted", "op %d: Garble accepted a 7-byte key", idx)
+				g.Release()
+			}
 		}
 	}
 	return res
